@@ -2358,3 +2358,118 @@ def check_bound_nested(ctx, case):
     ctx.violation('input-mutated:variables', 'a nested functional call on a bound submodule changed the variables of the enclosing call or its own', case)
   elif snap_module(foo) != snap0 or foo.scope is not None:
     ctx.violation('input-mutated:module', 'a nested functional call on a bound submodule changed the module object', case)
+
+
+# ------------------------------------------------------------------------------------------------
+# apply / init on modules that are (or hold) ALREADY BOUND submodules, with variables that differ from the bound ones
+# ------------------------------------------------------------------------------------------------
+
+
+def _sub_vars(V, path):
+  out = {'cols': [], 'vars': []}
+  n = len(path)
+  for p, v in V['vars']:
+    if len(p) > n + 1 and p[1:n + 1] == list(path):
+      out['vars'].append([[p[0]] + p[n + 1:], v])
+      if p[0] not in out['cols']:
+        out['cols'].append(p[0])
+  return canon_vars(out)
+
+
+def _bump(V, dp, ds):
+  return {'cols': list(V['cols']), 'vars': [[p, {'t': v['t'], 'd': [d + (dp if p[0] == 'params' else ds) for d in v['d']]}] for p, v in V['vars']]}
+
+
+def _leaf_ids(v):
+  if v['k'] == 'leaf':
+    return {v['id']}
+  if v['k'] == 'list':
+    return set().union(*[_leaf_ids(e) for e in v['items']]) if v['items'] else set()
+  if v['k'] == 'dict':
+    return set().union(*[_leaf_ids(e) for e in v['items'].values()]) if v['items'] else set()
+  return set().union(*[_leaf_ids(f[1]) for f in v['fields']]) if v['fields'] else set()
+
+
+def check_bound_apply(ctx, case):
+  """C02: what a module consumes is the variables it is given — also when it, or a module in one of its dataclass
+  fields, is already bound to other variables; init -> apply agree for a module wrapping a bound submodule"""
+  spec, leaves_cfg, x = case['spec'], case['leaves'], case['x']
+  ctx.case(case)
+  xin = np.asarray(x, F32)
+  key = the_key()
+  top = build_value(spec, {}, leaves_cfg)
+  Guard.reset()
+  r0 = _try(lambda: top.init_with_output({'params': key}, xin))
+  if r0[0] != 'ok' or Guard.peak >= LIMIT:
+    return
+  V1, probs = flatten_vars(r0[1][1])
+  if probs:
+    return
+  V2 = _bump(V1, 2, 5)
+  _, _, state = layout_reference(spec, leaves_cfg, x)
+
+  def canon(r):
+    if r[0] == 'err':
+      return r
+    v = r[1]
+    if isinstance(v, tuple) and len(v) == 2 and isinstance(v[1], (dict, FrozenDict)):
+      return ('ok', out_int(v[0]), flatten_vars(v[1])[0])
+    return ('ok', out_int(v), None)
+
+  bound = top.bind(unflatten_vars(V1))
+  # (0) the bound top-level module applied to other variables
+  got = canon(_try(lambda: bound.apply(unflatten_vars(V2), xin, mutable='stats')))
+  want = canon(_try(lambda: build_value(spec, {}, leaves_cfg).apply(unflatten_vars(V2), xin, mutable='stats')))
+  ctx.count('oracle', 'bound-apply:top')
+  if Guard.peak < LIMIT and got != want:
+    ctx.violation('bound-apply-ignores-variables', f'apply on a bound module with other variables gave {got[:2]}, the unbound module on the same variables gives {want[:2]}', dict(case, where='top'))
+    return
+  for n, val, _ in spec['fields']:
+    if val['k'] != 'holder':
+      continue
+    # (a) a bound submodule whose own fields hold further bound modules, applied to ANOTHER subtree
+    self_contained = all(state[((), i)]['path'][:1] == (n,) for i in _leaf_ids(val))
+    if self_contained:
+      sub = getattr(bound, n)
+      subV2 = _sub_vars(V2, [n])
+      Guard.reset()
+      got = canon(_try(lambda: sub.apply(unflatten_vars(subV2), xin, mutable='stats')))
+      want = canon(_try(lambda: build_value(val, {}, leaves_cfg).apply(unflatten_vars(subV2), xin, mutable='stats')))
+      ctx.count('oracle', 'bound-apply:submodule')
+      if Guard.peak < LIMIT and got != want:
+        ctx.violation('bound-apply-ignores-variables', f'apply on the bound submodule {n!r} with another subtree gave {got}, the stand-alone submodule on that subtree gives {want}', dict(case, where=n))
+        return
+    # (b) a bound (grand)child wrapped as a dataclass field of a NEW unbound module: init -> apply
+    for n2, val2, _ in val['fields']:
+      if val2['k'] not in ('leaf', 'holder') or (val2['k'] == 'holder' and not all(
+          state[((), i)]['path'][:2] == (n, n2) for i in _leaf_ids(val2))):
+        continue
+      if val2['k'] == 'leaf' and state[((), val2['id'])]['path'] != (n, n2):
+        continue
+      Wrap = holder_class(['inner'], [1], 1, False)
+      inner_bound = getattr(getattr(bound, n), n2)
+      outer = Wrap(inner=inner_bound)
+      ref = Wrap(inner=build_value(val2, {}, leaves_cfg))
+      Guard.reset()
+      ri = _try(lambda: outer.init_with_output({'params': key}, xin))
+      rr = _try(lambda: ref.init_with_output({'params': key}, xin))
+      ctx.count('oracle', 'rewrapped-bound:init-apply')
+      if Guard.peak >= LIMIT:
+        continue
+      if canon(ri) != canon(rr):
+        ctx.violation('rewrapped-bound-init-differs', f'init of a new module holding the bound submodule {n}.{n2} gave {canon(ri)}, with the unbound submodule {canon(rr)}', dict(case, where=[n, n2]))
+        return
+      if ri[0] != 'ok':
+        continue
+      v3 = _bump(flatten_vars(ri[1][1])[0], 3, 7)
+      got = canon(_try(lambda: outer.apply(unflatten_vars(v3), xin, mutable='stats')))
+      want = canon(_try(lambda: ref.apply(unflatten_vars(v3), xin, mutable='stats')))
+      if Guard.peak < LIMIT and got != want:
+        ctx.violation('rewrapped-bound-init-apply-disagree', f"the variables init returned for a module holding the bound submodule {n}.{n2}, re-applied (other weights), give {got[:2]}; what apply must consume gives {want[:2]}", dict(case, where=[n, n2]))
+        return
+      v3m = {'cols': v3['cols'], 'vars': [kv for kv in v3['vars'] if not (kv[0][0] == 'params' and kv[0][1] == 'inner')]}
+      miss = _try(lambda: outer.apply(unflatten_vars(v3m), xin, mutable='stats'))
+      if miss[0] == 'ok' and any(kv[0][0] == 'params' and kv[0][1] == 'inner' for kv in v3['vars']):
+        ctx.violation('missing-param-accepted', f'apply without the parameters of the wrapped (bound) submodule returned {out_int(miss[1][0])} instead of raising', dict(case, where=[n, n2]))
+        return
+      break
